@@ -244,6 +244,7 @@ def reach_params(has_type: bool, u_min: bool, u_max: bool, u_sp: bool, u_dir: bo
 
 
 CAST_DT = ['int8', 'int16', 'uint8', 'uint16']
+CAST_N_HI = 3 if THOROUGH else 2
 
 
 def cast_index_check(a, b, c, n, cdi):
@@ -275,7 +276,7 @@ def cast_index_check(a, b, c, n, cdi):
 def ob_cast_index(a: int, b: int, c: int, n: int, cdi: int) -> int:
     """
     pre: -2147483648 <= a <= 2147483647 and -2147483648 <= b <= 2147483647 and -2147483648 <= c <= 2147483647
-    pre: 1 <= n <= 3 and 0 <= cdi < 4
+    pre: 1 <= n <= CAST_N_HI and 0 <= cdi < 4 and (cdi * CAST_N_HI + n - 1) % SHARD_N == SHARD_I % (4 * CAST_N_HI)
     post: _ == 0
     """
     return cast_index_check(a, b, c, n, cdi)
@@ -284,7 +285,7 @@ def ob_cast_index(a: int, b: int, c: int, n: int, cdi: int) -> int:
 def reach_cast_index(a: int, b: int, c: int, n: int, cdi: int) -> int:
     """
     pre: -2147483648 <= a <= 2147483647 and -2147483648 <= b <= 2147483647 and -2147483648 <= c <= 2147483647
-    pre: 1 <= n <= 3 and 0 <= cdi < 4
+    pre: 1 <= n <= CAST_N_HI and 0 <= cdi < 4
     post: _ != 0
     """
     return cast_index_check(a, b, c, n, cdi)
